@@ -537,12 +537,32 @@ func (p *Parser) parseComponentStmt() ast.Statement {
 		stmt.Slots = p.parseSlots()
 		hasSlots = true
 	} else if p.peekTokenIs(token.HTML) && isWhitespace(p.peekToken.Literal) {
-		p.nextToken() // skip ")"
+		closing := p.curToken // ")"
+
+		// look over the whitespace for the first slot. A comment
+		// splits the whitespace into several tokens
+		var spaces []token.Token
+
+		for p.peekTokenIs(token.HTML) && isWhitespace(p.peekToken.Literal) {
+			p.nextToken()
+			spaces = append(spaces, p.curToken)
+		}
 
 		if p.peekTokenIs(token.SLOT) {
 			p.nextToken() // skip whitespace
 			stmt.Slots = p.parseSlots()
 			hasSlots = true
+		} else {
+			// no slot follows, the whitespace is text of the
+			// template and is given back
+			p.unread = append(p.unread, p.peekToken)
+
+			for i := len(spaces) - 1; i > 0; i-- {
+				p.unread = append(p.unread, spaces[i])
+			}
+
+			p.peekToken = spaces[0]
+			p.curToken = closing
 		}
 	}
 
